@@ -122,7 +122,19 @@ class UnitsOrd2(UnitsOrd):
     ALTN = ("cm", "hr", "lb")
 
 
-MODES = {"p4": UnitsP4, "ord": UnitsOrd, "ord2": UnitsOrd2}
+class UnitsMix(UnitsOrd):
+    """ordinary units whose products and quotients CANCEL across operand groups with a numeric coefficient
+    (km/s · hr = 3600 km, km/s · 1/cm = 1e5/s, hr / (km/s) = 3600 s²/km …), re-expressed in coherent SI
+    units, where nothing is left to simplify: with all groups re-expressed the comparison is
+    "SI magnitude of F(x) = F(SI magnitudes of x)" — a handler that simplifies the unit of its result
+    without applying the simplification coefficient to the numbers fails it"""
+
+    name = "mix"
+    BASEN = ("km/s", "hr", "cm**-1")
+    ALTN = ("m/s", "s", "m**-1")
+
+
+MODES = {"p4": UnitsP4, "ord": UnitsOrd, "ord2": UnitsOrd2, "mix": UnitsMix}
 
 # -----------------------------------------------------------------------------------------------
 # bare numbers that the call form gives in the unit of an operand group: unyt (and the reader) takes
@@ -563,10 +575,8 @@ def compare(t, dk, sc, seed, mode="p4", regroup=0, out_mode="unyt"):
         return "raises-after-reexpression", f"{b['exc']}: {b['msg']}"
     diffs = []
     values = t.values and t.func not in ROUNDING
-    if t.out_form and out_mode == "bare":
-        # the result IS the caller's bare buffer (raw numbers in whatever unit): not a unit-carrying result,
-        # and not a unitless one either
-        a["result"], b["result"] = _drop_bare(a["result"]), _drop_bare(b["result"])
+    # (a bare out= buffer does not excuse a bare result: `np.dot(x, y, out=bare)`, `np.take(x, i, out=bare)` … return
+    # a unyt object wrapping the buffer; a function that hands the bare buffer back has dropped the units)
     if not exact and t.func in PHASE_GAUGE:
         a["result"], b["result"] = _abs_leaves(a["result"], PHASE_GAUGE[t.func]), _abs_leaves(b["result"], PHASE_GAUGE[t.func])
     if t.tid in ORDER_UNSPECIFIED:
@@ -680,8 +690,6 @@ def base_check(t, dk, sc, seed, mode, out_mode, dim_preserving, unitless, dim_op
         lf = nl[0]
         if t.out_form and out_mode == "unyt" and _stale_out(lf, U):
             pass  # reported as out-unit-stale by the covariance comparison
-        elif t.out_form and out_mode == "bare" and lf[0] == "b":
-            pass  # the caller's bare buffer
         elif lf[0] != "q":
             out.append(("units-dropped", f"first result is {_brief(lf)}; required: a unyt object of dimension {want}"))
         elif lf[2] != want:
